@@ -163,16 +163,19 @@ def work(item):
                 ph = m['grid'].Grid(eta[:3], [None] * 3, sw, 'poloidal', comm=comm, dtype=object)
                 dist.fill_grid(g, F.arr)
                 dist.fill_grid(ph, P.arr)
-                pa = adv.PoloidalAdvection.__new__(adv.PoloidalAdvection)
-                pa._phiSplines = [dict(tag=None) for _ in range(nz)]
+                # the REAL constructor provides the per-plane potential splines (one object per z plane of the process); only the
+                # 2-D interpolation and the 2-D step are recorders
+                rbas = dist.make_basis(1, False, [Fr(1) + Fr(i, 2) for i in range(nr)], uniform=False)
+                qbas = dist.make_basis(3, True, [TWO_PI * Fr(i, nq) for i in range(nq + 1)], uniform=False)
+                pa = adv.PoloidalAdvection(eta, [qbas, rbas], consts, nulEdge=True)
 
                 class Interp:
                     def compute_interpolant(self, data, spl):
-                        spl['tag'] = P.where(data[0, 0])[2]      # global z of the potential plane
+                        spl.verif_tag = P.where(data[0, 0])[2]      # global z of the potential plane
                 pa._interpolator = Interp()
 
                 def step(f, dt_, phi, vv):
-                    rec.append((F.where(f[0, 0]), phi['tag'], vv))
+                    rec.append((F.where(f[0, 0]), getattr(phi, 'verif_tag', None), vv))
                 pa.step = step
                 pa.gridStep(g, ph, K(Fr(1, 2)))
                 if op == 'pol_keep':
@@ -418,14 +421,16 @@ def float_replay(allm, item, hits):
                     ph = m['grid'].Grid(eta[:3], [None] * 3, sw, 'poloidal', comm=comm)
                     dist.fill_grid(g, Fd)
                     dist.fill_grid(ph, Pd)
-                    pa = adv.PoloidalAdvection.__new__(adv.PoloidalAdvection)
-                    pa._phiSplines = [dict() for _ in range(nz)]
+                    knr = m['spl'].make_knots(np.array([float(x) for x in r]), 1, False)
+                    rbas = m['spl'].BSplines(knr, 1, False, False)
+                    qbas = m['spl'].BSplines(kq, 3, True, False)
+                    pa = adv.PoloidalAdvection(eta, [qbas, rbas], FC, nulEdge=True)          # real constructor: real list of plane splines
 
                     class Interp:
                         def compute_interpolant(self, data, spl):
-                            spl['s'] = float(np.sum(data))
+                            spl.verif_s = float(np.sum(data))
                     pa._interpolator = Interp()
-                    pa.step = lambda f, dt_, phi, vv: f.__setitem__((slice(None), slice(None)), f * 0 + phi['s'] + 1000 * vv)
+                    pa.step = lambda f, dt_, phi, vv: f.__setitem__((slice(None), slice(None)), f * 0 + phi.verif_s + 1000 * vv)
                     pa.gridStep(g, ph, 0.5)
                     if op == 'pol_keep':
                         pa.gridStep_SplinesUnchanged(g, 0.5)
